@@ -54,6 +54,8 @@ TREES: Dict[str, Dict[str, Any]] = {
 # namespace of every process), at the top level and nested
 TREES['T4'] = {'a': leaf(1), 'n': ns(1, {'x': leaf(2)}, valid_type=int, dynamic=False), 'd': ns(4, {'x': leaf(5)}, default={'x': 1}),
                'm': ns(2, {'y': leaf(3), 'k': ns(3, {}, valid_type=str, dynamic=False)}, valid_type=int)}
+# T5: names that occur again further down (x, ns.x, ns.ns.x): a rule speaks about one path only
+TREES['T5'] = {'x': leaf(1), 'y': leaf(2), 'ns': ns(1, {'x': leaf(3), 'y': leaf(4), 'ns': ns(2, {'x': leaf(5), 'y': leaf(6)})})}
 TOP_ATTRS: Dict[str, Dict[str, Any]] = {'T4': {'valid_type': int, 'dynamic': False}}
 DEST_PRE = {'zz_keep': leaf(9), 'zn_keep': ns(9, {'k': leaf(10)})}
 NAMESPACES = (None, 't', 't.u')
